@@ -162,6 +162,9 @@ func (r *Run) Violation(sig, what string, replay any) bool {
 	r.violSigs[sig] = true
 	h := sha256.Sum256([]byte(sig))
 	dir := filepath.Join(VerifDir(), "replays")
+	if d := os.Getenv("VERIF_EVIDENCE_DIR"); d != "" {
+		dir = filepath.Join(d, "replays")
+	}
 	_ = os.MkdirAll(dir, 0755)
 	path := filepath.Join(dir, fmt.Sprintf("%s-%s.json", r.Prop, hex.EncodeToString(h[:])[:10]))
 	doc := map[string]any{"property": r.Prop, "signature": sig, "what": what, "seed": r.Seed, "tier": r.Tier, "replay": replay}
@@ -228,6 +231,9 @@ func (r *Run) Finish() int {
 		ev["assumptions"] = []string{}
 	}
 	dir := filepath.Join(VerifDir(), "evidence")
+	if d := os.Getenv("VERIF_EVIDENCE_DIR"); d != "" {
+		dir = d // used when running the checks against seeded changes: never overwrite real evidence
+	}
 	_ = os.MkdirAll(dir, 0755)
 	b, _ := json.MarshalIndent(ev, "", " ")
 	_ = os.WriteFile(filepath.Join(dir, r.Prop+".json"), append(b, '\n'), 0644)
